@@ -641,3 +641,56 @@ func loadedField(v ssa.Value) (string, ssa.Value, bool) {
 	}
 	return fieldName(v)
 }
+
+// cellValue: the value held by a local that is assigned exactly once (a parameter spilled into a cell because a closure
+// captures it, say): for a load of such a cell the assigned value, otherwise v itself.
+func cellValue(v ssa.Value) ssa.Value {
+	ld, ok := v.(*ssa.UnOp)
+	if !ok || ld.Op != token.MUL {
+		return v
+	}
+	al, ok := ld.X.(*ssa.Alloc)
+	if !ok {
+		return v
+	}
+	var stored ssa.Value
+	n := 0
+	for _, r := range *al.Referrers() {
+		switch x := r.(type) {
+		case *ssa.Store:
+			if x.Addr != ssa.Value(al) {
+				return v // the cell's address escapes into memory
+			}
+			stored = x.Val
+			n++
+		case *ssa.UnOp:
+		case *ssa.MakeClosure:
+			// the capturing closure must only read it
+			cf, _ := x.Fn.(*ssa.Function)
+			for i, b := range x.Bindings {
+				if b != ssa.Value(al) || cf == nil || i >= len(cf.FreeVars) {
+					continue
+				}
+				for _, fr := range *cf.FreeVars[i].Referrers() {
+					if u, isLoad := fr.(*ssa.UnOp); !isLoad || u.Op != token.MUL {
+						return v
+					}
+				}
+			}
+		default:
+			return v
+		}
+	}
+	if n != 1 {
+		return v
+	}
+	return stored
+}
+
+// origin: the generic function an instantiation was made from, or fn itself.
+func origin(fn *ssa.Function) *ssa.Function {
+	if o := fn.Origin(); o != nil {
+		return o
+	}
+	return fn
+}
